@@ -3,6 +3,7 @@ package c18
 
 import (
 	"bytes"
+	"crypto/md5"
 	"encoding/json"
 	"errors"
 	"fmt"
@@ -144,6 +145,7 @@ type Case struct {
 	Damage  []scen.Damage   `json:"damage"`
 	DelVols []int           `json:"del_vols"`
 	DC      bool            `json:"double_check"`
+	NonRec  bool            `json:"non_recovery,omitempty"` // par2: the main packet also lists a file that is not part of the recovery set (legal; other clients write such sets)
 	Fault   fault           `json:"fault"`
 	Fault2  *fault          `json:"fault2,omitempty"` // injected during the re-run
 }
@@ -259,8 +261,57 @@ func newWorld(c Case) (*world, string) {
 	if c.Format == "par2" {
 		w.prot = scen.ProtOrder(w.orig, w.S)
 		w.ownSet = par2ref.NewSet(w.S, w.orig).SetID()
+		if c.NonRec {
+			if msg := w.addNonRecoveryFile(fs.files); msg != "" {
+				return nil, msg
+			}
+		}
 	}
 	return w, ""
+}
+
+// addNonRecoveryFile rewrites every PAR2 file of the set so that the main packet lists one more file outside the
+// recovery set (with its description and checksum packets); the set ID changes with the main packet, so every packet
+// is re-encoded under the new ID.  The file itself is present.
+func (w *world) addNonRecoveryFile(files map[string][]byte) string {
+	extra := []byte("a file that is listed in the main packet but is not part of the recovery set\n")
+	files[dir+"/extra.txt"] = extra
+	ef := par2ref.NewSetFile("extra.txt", extra, w.S)
+	var newID [16]byte
+	for p, raw := range files {
+		if !strings.HasSuffix(p, ".par2") {
+			continue
+		}
+		ps, err := par2ref.ScanStrict(raw)
+		if err != nil {
+			return "harness: " + p + ": " + err.Error()
+		}
+		var mainBody []byte
+		for _, q := range ps {
+			if q.Type == par2ref.TypeMain {
+				mainBody = append(append([]byte{}, q.Body...), ef.ID[:]...)
+			}
+		}
+		if mainBody == nil {
+			return "harness: no main packet in " + p
+		}
+		newID = md5.Sum(mainBody)
+		var out []byte
+		for _, q := range ps {
+			body := q.Body
+			if q.Type == par2ref.TypeMain {
+				body = mainBody
+			}
+			out = append(out, par2ref.Packet{SetID: newID, Type: q.Type, Body: body}.Encode()...)
+			if q.Type == par2ref.TypeMain {
+				out = append(out, par2ref.Packet{SetID: newID, Type: par2ref.TypeFileDesc, Body: par2ref.FileDescBody(ef)}.Encode()...)
+				out = append(out, par2ref.Packet{SetID: newID, Type: par2ref.TypeIFSC, Body: par2ref.IFSCBody(ef)}.Encode()...)
+			}
+		}
+		files[p] = out
+	}
+	w.ownSet = newID
+	return ""
 }
 
 // withinCapacity decides from the model whether Repair must succeed on filesystem state fs.
@@ -613,6 +664,8 @@ func TestCheck(t *testing.T) {
 		{Format: "par1", Op: "repair", N: 2, Files: []scen.FileSpec{{Name: "a.dat", Size: 32768, Kind: "random", Seed: 63}, {Name: "b.bin", Size: 40000, Kind: "random", Seed: 64}}, Damage: []scen.Damage{{Op: "flip", File: 0, Off: 5}, {Op: "delete", File: 1}}},
 		{Format: "par2", Op: "repair", Slice: 1024, N: 25, Files: []scen.FileSpec{{Name: "a.dat", Size: 20000, Kind: "random", Seed: 65}, {Name: "sub/b.bin", Size: 300, Kind: "random", Seed: 66}}, Damage: []scen.Damage{{Op: "delete", File: 0}}},
 		{Format: "par2", Op: "create", Slice: 2048, N: 2, Files: []scen.FileSpec{{Name: "a.dat", Size: 40000, Kind: "random", Seed: 67}}},
+		{Format: "par2", Op: "verify", Slice: 8, N: 2, NonRec: true, Files: []scen.FileSpec{{Name: "a.dat", Size: 30, Kind: "random", Seed: 69}, {Name: "sub/b.bin", Size: 9, Kind: "random", Seed: 70}}, Damage: []scen.Damage{{Op: "flip", File: 0, Off: 3}}},
+		{Format: "par2", Op: "repair", Slice: 8, N: 3, NonRec: true, DC: true, Files: []scen.FileSpec{{Name: "a.dat", Size: 30, Kind: "random", Seed: 71}, {Name: "sub/b.bin", Size: 9, Kind: "random", Seed: 72}}, Damage: []scen.Damage{{Op: "delete", File: 1}}},
 		{Format: "par1", Op: "create", N: 2, Files: []scen.FileSpec{{Name: "a.dat", Size: 40000, Kind: "random", Seed: 68}}},
 	} {
 		if cfg.Mine(9000 + bi) {
@@ -650,6 +703,7 @@ func TestCheck(t *testing.T) {
 			}
 		}
 		c.DC = rapid.Bool().Draw(rt, "dc")
+		c.NonRec = c.Format == "par2" && c.Op != "create" && rapid.IntRange(0, 4).Draw(rt, "nonrec") == 0
 		c.Fault = fault{At: -1}
 		if !sweep(c, cfg.N(6, 30), rapid.Uint64Range(1, 1<<40).Draw(rt, "pairseed")) {
 			rt.Fatalf("C18 failed")
